@@ -70,3 +70,53 @@ def c04(chk):
             (r["ev"], r.get("outcome"), r.get("origin"), r.get("old_origin"), r.get("reason"), "removed" in r)
             if r["ev"] in ("ap.add", "ap.remove", "ap.remove_id") and (r.get("outcome") != "new") else None))
     sample_events(chk, s1, ("ap.add", "ap.remove_id", "obs.event"))
+
+
+def table_check(chk, table_name, rows, scenario, **kw):
+    """replay a TLC-emitted decision table into the real code; every mismatch is a violation"""
+    path = vlib.write_json(os.path.join(vlib.WORK, f"{chk.pid}_{table_name}.json"), rows)
+    summ = harness(scenario, table=path, seed=chk.seed, **kw)
+    chk.parts.setdefault("tables", []).append({"table": table_name, "rows": len(rows), "evaluations": summ["evaluations"]})
+    chk.evaluations += summ["evaluations"]
+    for r in rows:
+        chk.distinct.add((table_name, json.dumps(r, sort_keys=True)))
+    for m in summ["mismatches"]:
+        chk.violation(f"table:{table_name}:{json.dumps(m.get('row'), sort_keys=True)[:120]}",
+                      f"real code disagrees with the specification's {table_name} table: {json.dumps(m)[:400]}", m)
+    if rows:
+        chk.sample({"table": table_name, "row": rows[0]})
+    return summ
+
+
+@prop("C05")
+def c05(chk):
+    chk.rule = ("cases = distinct sequences of (node, origin, add outcome / handler exit) in which the two connections of a "
+                "mutual dial were registered and closed on the two sides, as realised by schedule gates and by random "
+                "latency/loss; plus rows of the tie-break table x random id pairs")
+    chk.assumptions = ["both handshakes finish (the property's premise): runs where a dial failed are still validated "
+                       "by the trace spec but not required to converge on a connection"]
+    chk.add_mc(tlc_mc("MC_Conn.tla", "MC_Conn_c05.cfg", workers=4, timeout=300))
+    tables = vlib.tlc_tables("TieBreakTable.tla", "TieBreakTable.cfg")
+    table_check(chk, "tiebreak", tables["tiebreak"], "table-tiebreak", per_row=400 if quick(chk) else 20000)
+    runs = 48 if quick(chk) else 48 * 8
+    for label, gated, seed in (("gated", 1, chk.seed * 48), ("random", 0, 100_000 + chk.seed)):
+        summ = harness("c05", out=os.path.join(vlib.WORK, f"C05_{label}"), seed=seed,
+                       runs=runs if gated else runs * (1 if quick(chk) else 3), jobs=12, files=8, gated=gated)
+        summ["args"] = {"gated": gated}
+        trace_check(chk, *CONN_TRACE, summ, label=label)
+        # distinct orders realised
+        for f in summ["files"]:
+            seq = []
+            for line in open(f):
+                r = json.loads(line)
+                if r["ev"] == "reset":
+                    if seq:
+                        chk.case(tuple(seq))
+                    seq = []
+                elif r["ev"] == "ap.add":
+                    seq.append((r["node"], r["origin"], r["outcome"]))
+                elif r["ev"] == "ap.remove_id" and "removed" in r and len(seq) < 6:
+                    seq.append((r["node"], "exit", r["reason"]))
+            if seq:
+                chk.case(tuple(seq))
+        sample_events(chk, summ, ("ap.add",), n=3)
